@@ -18,6 +18,24 @@ from contracts.fixpoint import (
 from contracts.gr1_streett import _setup_game, _explicit_game, _index_is
 
 
+def layer_facts(w, cpre, tE, tS, inside_t, goal_t, xr, x_node=None, tag=''):
+    r"""Facts of the LAST adjacent pair of attractor layers recorded by
+    `_attractor_inside`:  x[-1] == ((CPre x[-2] \/ goal) /\ inside) \/ x[-2]
+    (x[-2] := FALSE for a single layer).  Append-only list: all pairs by
+    induction on the length (meta-step)."""
+    ok = len(xr) >= 1
+    out = [(f'{tag}layers_structure', z3.BoolVal(ok))]
+    if not ok:
+        return out
+    prev = w.term(xr[-2]) if len(xr) >= 2 else z3.BoolVal(False)
+    out.append((f'{tag}layer_is_F_of_previous', spec.equiv(
+        w, w.term(xr[-1]),
+        z3.Or(z3.And(z3.Or(cpre(tE, tS, prev), goal_t), inside_t), prev))))
+    if x_node is not None:
+        out.append((f'{tag}last_layer_is_x', spec.equiv(w, w.term(xr[-1]), w.term(x_node))))
+    return out
+
+
 # ---------------------------------------------------------------------------
 # _attractor_inside
 
@@ -37,25 +55,45 @@ def h_attractor_inside(ctx):
     hypP = spec.subset(w, F(P), P)
     w.assume(hypP)
 
+    def _havoc_xr(w_, L):
+        if L['xold'] is None:
+            return
+        if w_.run.decide(z3.Bool('single_layer_so_far')):
+            L['xr'][:] = [L['x']]
+        else:
+            L['xr'][:] = [L['xold'], L['x']]
+
     def inv(L):
         x, xold = L['x'], L['xold']
         tx = w.term(x)
         out = [('typing', _syntactic(w, x, xold)),
                ('x_below_P', spec.subset(w, tx, P))]
-        if xold is not None:
+        if xold is None:
+            out.append(('init', z3.And(spec.equiv(w, tx, z3.BoolVal(False)),
+                                       z3.BoolVal(len(L['xr']) == 0))))
+        else:
             out.append(('F_xold_below_x', spec.subset(w, F(w.term(xold)), tx)))
+            out += layer_facts(w, cpre, tE, tS, ti, tg, L['xr'], x)
+            if len(L['xr']) >= 2:
+                out.append(('layers_prev_is_xold', spec.equiv(w, w.term(L['xr'][-2]), w.term(xold))))
+            elif len(L['xr']) == 1:
+                out.append(('layers_first_round_started_from_FALSE',
+                            spec.equiv(w, w.term(xold), z3.BoolVal(False))))
         return out
 
     loops = {0: dict(
         vars=dict(x=_state_pred_maker('x!h'),
                   xold=_optional('xold!h', 'xold_is_None'),
                   cox_x=_state_pred_maker('cox_x!h')),
+        mutated=dict(xr=_havoc_xr),
         inv=inv)}
     before = snapshot(aut)
     f = ctx.fn(gr1._attractor_inside, loops=loops,
                module_overrides=dict(fx=dict(step=step_stub(ctx))))
     x, xr = ctx.call(f, inside, goal, aut, label='_attractor_inside')
     tx = w.term(x)
+    for label, fm in layer_facts(w, cpre, tE, tS, ti, tg, xr, x):
+        w.oblige(f'_attractor_inside.post: {label} (last adjacent pair of the recorded layers; all pairs by induction)', fm)
     w.oblige('_attractor_inside.post: (CPre x \\/ goal) /\\ inside <= x   (pre-fixed point)',
              spec.subset(w, F(tx), tx))
     w.oblige('_attractor_inside.post: x below every closed P   (least)',
@@ -87,7 +125,11 @@ def ai_stub(ctx, tE, tS, log, after=None):
         w.assume(lf.prefixed_fact())
         if after is not None:
             after(goal, lf)
-        return x, [x]
+        xp = w.pred(f'ai!{cnt[0]}p', w.STATE)
+        xr = [xp, x]
+        for label, fm in layer_facts(w, cpre, tE, tS, inside.t, goal.t, xr, x):
+            w.assume(fm)
+        return x, xr
     return stub
 
 
@@ -121,7 +163,16 @@ def h_cycle_inside(ctx):
 
     def _havoc_xjr(w_, L):
         if L['yold'] is not None:
-            L['xjr'][:] = [[w_.pred('xh!%d' % j, w_.STATE)] for j in range(J)]
+            L['xjr'][:] = [[w_.pred('xp!%d' % j, w_.STATE), w_.pred('xh!%d' % j, w_.STATE)]
+                           for j in range(J)]
+
+    def xjr_facts(xjr, ty_for_inside, ty):
+        out = list()
+        ins = z3.And(cpre(tE, tS, ty_for_inside), g)
+        for j in range(J):
+            out += layer_facts(w, cpre, tE, tS, ins, tg[j], xjr[j], tag=f'goal{j}_')
+            out.append((f'goal{j}_y_below_last_layer', spec.subset(w, ty, w.term(xjr[j][-1]))))
+        return out
 
     def after_ai(goal, lf):
         j = _index_is(aut.win['[]<>'], goal)
@@ -134,8 +185,11 @@ def h_cycle_inside(ctx):
         out = [('typing', _syntactic(w, y, yold)),
                ('Q_below_y', spec.subset(w, Q, ty))]
         if yold is not None:
+            shape_ok = len(L['xjr']) == J and all(len(x) >= 1 for x in L['xjr'])
             out.append(('xjr_shape: layers for exactly the recurrence predicates of this iteration',
-                        z3.BoolVal(len(L['xjr']) == J and all(len(x) >= 1 for x in L['xjr']))))
+                        z3.BoolVal(shape_ok)))
+            if shape_ok:
+                out += xjr_facts(L['xjr'], w.term(yold), ty)
             for j in range(J):
                 out.append((f'y_below_LFPI{j}_of_yold', z3.Implies(
                     closed_hyp(j, w.term(yold)), spec.subset(w, ty, P[j]))))
@@ -162,6 +216,9 @@ def h_cycle_inside(ctx):
     ty = w.term(y)
     w.oblige('_cycle_inside.post: returns attractor layers for exactly the recurrence predicates (those of the final iteration)',
              z3.BoolVal(len(xjr) == J and all(len(x) >= 1 for x in xjr)))
+    if w.symbolic and len(xjr) == J and all(len(x) >= 1 for x in xjr):
+        for label, fm in xjr_facts(xjr, ty, ty):
+            w.oblige(f'_cycle_inside.post: {label} w.r.t. the returned y (inside = CPre y /\\ (CPre z \\/ hold))', fm)
     if w.symbolic:
         for j in range(J):
             w.oblige(f'_cycle_inside.post: y <= LFPI_{j}(CPre y /\\ g)   (post-fixed point)',
@@ -221,7 +278,16 @@ def ci_stub(ctx, tE, tS, tg, log, after=None):
         cy = fixghost.CycSet(w, cpre, tE, tS, tg, g, y.t, log, f'ci!{cnt[0]}')
         if after is not None:
             after(z, hold, cy)
-        return y, [[y]]
+        ins = z3.And(cpre(tE, tS, y.t), g)
+        xjr = list()
+        for j in range(len(tg)):
+            xp = w.pred(f'ci!{cnt[0]}p{j}', w.STATE)
+            xl = w.pred(f'ci!{cnt[0]}l{j}', w.STATE)
+            xjr.append([xp, xl])
+            for label, fm in layer_facts(w, cpre, tE, tS, ins, tg[j], xjr[j]):
+                w.assume(fm)
+            w.assume(spec.subset(w, y.t, xl.t))
+        return y, xjr
     return stub
 
 
